@@ -30,6 +30,7 @@ import (
 
 	"github.com/ethereum/go-ethereum/core/rawdb"
 	"github.com/ethereum/go-ethereum/ethdb"
+	"github.com/ethereum/go-ethereum/rlp"
 	"github.com/golang/snappy"
 	tl "verif/harness/tracelib"
 )
@@ -756,7 +757,7 @@ func (rn *runner) lens() map[string]any {
 	cur := rn.tk.refresh()
 	out := map[string]any{}
 	for _, t := range rn.cfg.Tables {
-		out[t.Name] = map[string]any{"idx": 0, "dat": []any{}}
+		out[t.Name] = map[string]any{"idx": 0, "dat": []any{}, "meta": []int{-1, -1}}
 	}
 	names := make([]string, 0, len(cur))
 	for n := range cur {
@@ -771,6 +772,16 @@ func (rn *runner) lens() map[string]any {
 			m["idx"] = len(cur[n])
 		case "dat":
 			m["dat"] = append(m["dat"].([]any), []int{id.Fno, len(cur[n])})
+		case "meta":
+			// the metadata file content: rlp([version, virtualTail, flushOffset])
+			var md struct {
+				Version uint16
+				Tail    uint64
+				Offset  uint64
+			}
+			if err := rlp.Decode(bytes.NewReader(cur[n]), &md); err == nil {
+				m["meta"] = []int{int(md.Tail), int(md.Offset)}
+			}
 		}
 	}
 	return out
